@@ -357,56 +357,10 @@ func rulesC04(w *World, r *Report) {
 	}
 	r.floor("C04.R1 (writer, first emission) pairs", nW, 4)
 
-	// R2 registrar
-	f := w.flow(encReg)
-	nR := 0
-	fi := w.encRefField()
-	for _, b := range encReg.Blocks {
-		ret, ok := b.Instrs[len(b.Instrs)-1].(*ssa.Return)
-		if !ok || len(ret.Results) != 2 {
-			continue
-		}
-		k, isC := ret.Results[1].(*ssa.Const)
-		if !isC || k.Value == nil || k.Value.ExactString() != "false" {
-			continue
-		}
-		nR++
-		// every path entry→b passes a MapUpdate on the ref table
-		upd := map[*ssa.BasicBlock]bool{}
-		var valueDesc string
-		for _, bb := range encReg.Blocks {
-			for _, in := range bb.Instrs {
-				if mu, ok := in.(*ssa.MapUpdate); ok {
-					if o, fld, ok := w.fieldOfLoad(mu.Map); ok && o == "Encoder" && fld == fi {
-						upd[bb] = true
-						valueDesc = f.term(mu.Value).Key()
-					}
-				}
-			}
-		}
-		reachable := false
-		seen := map[*ssa.BasicBlock]bool{}
-		var walk func(x *ssa.BasicBlock)
-		walk = func(x *ssa.BasicBlock) {
-			if seen[x] || upd[x] {
-				return
-			}
-			seen[x] = true
-			if x == b {
-				reachable = true
-				return
-			}
-			for _, s := range x.Succs {
-				walk(s)
-			}
-		}
-		if !upd[b] {
-			walk(encReg.Blocks[0])
-		}
-		okOrd := strings.Contains(valueDesc, "len(")
-		r.add("C04.R2 a miss inserts and takes the next ordinal", fmt.Sprintf("%s · not-found return #%d", fnName(encReg), nR), w.instrPos(ret), !reachable && okOrd,
-			fmt.Sprintf("every path to this return passes the insertion=%v; stored ordinal = %s", !reachable, valueDesc))
-	}
+	// R2 registrar: read from its paths (rules_registrar_px.go) — every path that reports
+	// 'not found' passes the insertion of len(table); the floor counts the returns such a
+	// path reaches, whatever their operands look like
+	nR := w.ruleRegistrarMiss(r, "C04.R2 a miss inserts and takes the next ordinal", encReg)
 	r.floor("C04.R2 not-found returns of the registrar", nR, 1)
 	w.ruleRefKeyPins(r, "C04.R2 a miss inserts and takes the next ordinal")
 	w.ruleRefKeyIdentity(r, "C04.R6 the ref key identifies the container")
